@@ -738,6 +738,11 @@ class Exec(Executor):
         if fi.abstract and not self.find_contract(fi, None):
             raise NeedsContract(f"call of abstract {fi.qualname} without a contract", node)
         k = self.find_contract(fi, dispatch_cls)
+        if (k is not None and dispatch_cls is not None and fi.kind in ("method", "property") and fi.cls is not None
+                and not isinstance(recv, ClassVal) and dispatch_cls.lookup(fi.name) is not fi and not k.assumed):
+            # a super() call: this implementation runs with a receiver of a class that overrides it.  Its contract was
+            # verified only for the classes that resolve to it, so it says nothing here: execute the body instead.
+            k = None
         if dispatch_cls is None and fi.kind in ("method", "property") and isinstance(recv, SV):
             vk = self.find_virtual(fi)
             if vk is not None:
